@@ -75,12 +75,6 @@ Definition flatten (ds : list layer) : layer := fold_left lupdate ds [].
 
 Definition has_key (k : str) (d : layer) : bool := smem k d.
 
-Fixpoint get_index {A} (f : A -> bool) (l : list A) : option nat :=
-  match l with
-  | [] => None
-  | x :: r => if f x then Some O else match get_index f r with Some i => Some (S i) | None => None end
-  end.
-
 Definition builtins : layer := [(s2n "True", CBool true); (s2n "False", CBool false); (s2n "None", CNone)].
 
 Definition is_extracting (ds : list layer) : bool :=
@@ -434,32 +428,6 @@ Section MRender.
         end
       else MOk g.
 
-    (* SlotNode.render: django mode, no outer context (instance created from Python), slot name not among the own
-       fills: search the layer list for the "parent" component layer and take ITS fills *)
-    Definition slot_fills_of (rid : N) (ci : cinst) (name : str) (g : gstate) (ds : list layer) : list (str * slotfn) :=
-      let fills := ci_fills ci in
-      if is_django && match ci_outer ci with None => true | Some _ => false end && negb (smem name fills) then
-        match get_index (fun d => match slookup KEY d with Some (CId i) => N.eqb i rid | _ => false end) ds with
-        | None => fills
-        | Some curr =>
-            let parent :=
-              match CtxStack.get_last_index (has_key KEY) (firstn curr ds) with
-              | Some p => Some p
-              | None => match get_index (has_key KEY) (skipn (S curr) ds) with
-                        | Some p => Some (p + curr + 1)%nat
-                        | None => None
-                        end
-              end in
-            match parent with
-            | Some p => match slookup KEY (nth p ds []) with
-                        | Some (CId pid) => match alookup pid (g_cctx g) with Some pci => ci_fills pci | None => fills end
-                        | _ => fills
-                        end
-            | None => fills
-            end
-        end
-      else fills.
-
     (* SlotNode.render: extra_context = component-key override (filled slots, django mode) + inject keys pass-through *)
     Definition slot_extra (ci : cinst) (is_filled : bool) (ds : list layer) : mres layer :=
       mbind (if is_filled && is_django then
@@ -499,7 +467,7 @@ Section MRender.
           if isd && negb (str_eqb name default_key) && smem name fills && smem default_key fills then MErr ETemplateSyntax
           else
           let fill_name := if isd && smem default_key fills then default_key else name in
-          let filled := slookup fill_name (slot_fills_of rid ci name g1 (dicts c)) in
+          let filled := slookup fill_name fills in
           match filled, isr with
           | None, true => MErr ETemplateSyntax
           | _, _ =>
